@@ -78,7 +78,7 @@ WithGroup(i, name) ==
           IN /\ arrays' = Append(arrays, cells)
              /\ hs' = Append(hs, [h EXCEPT !.arr = Len(arrays) + 1, !.len = h.len + 1, !.cap = newcap,
                                              !.path = Append(@, [op |-> "group", name |-> name, attrs |-> <<>>])])
-  /\ UNCHANGED <<logs, out>> /\ hist' = Append(hist, [op |-> "group", h |-> i, name |-> name, attrs |-> <<>>])
+  /\ UNCHANGED <<logs, out>> /\ hist' = Append(hist, [op |-> "group", h |-> i, name |-> name, attrs |-> <<>>, want |-> <<>>])
 
 WithAttrs(i, attrs) ==
   LET h == hs[i]
@@ -89,7 +89,7 @@ WithAttrs(i, attrs) ==
   IN /\ Len(hs) < MaxHandlers
      /\ hs' = Append(hs, [ctx |-> h.ctx \o r[1], arr |-> IF clear THEN 0 ELSE h.arr, len |-> IF clear THEN 0 ELSE h.len,
                           cap |-> IF clear THEN 0 ELSE h.cap, path |-> Append(h.path, [op |-> "attrs", name |-> "", attrs |-> attrs])])
-     /\ UNCHANGED <<arrays, logs, out>> /\ hist' = Append(hist, [op |-> "attrs", h |-> i, name |-> "", attrs |-> attrs])
+     /\ UNCHANGED <<arrays, logs, out>> /\ hist' = Append(hist, [op |-> "attrs", h |-> i, name |-> "", attrs |-> attrs, want |-> <<>>])
 
 \* ---- reference: the entry a handler with this path must produce for this record ----
 \* walks the path; pending = groups opened and not yet shown; a group is shown just before the first output under it
@@ -108,6 +108,7 @@ Ref(path, k, pending, acc, rec) ==
        IF s.op = "group" THEN Ref(path, k + 1, IF s.name = "" THEN pending ELSE Append(pending, s.name), acc, rec)
        ELSE LET r == RefConv(s.attrs, pending) IN Ref(path, k + 1, IF r[2] THEN <<>> ELSE pending, acc \o r[1], rec)
 
+Pretty(fs) == [i \in 1..Len(fs) |-> IF fs[i].t = "ns" THEN "ns:" \o fs[i].v ELSE fs[i].t]
 Log(i, rec) ==
   LET h == hs[i]
       r == Conv(rec, 1, Groups(h), <<>>, FALSE, 0)
@@ -115,7 +116,7 @@ Log(i, rec) ==
   IN /\ logs < MaxLogs
      /\ logs' = logs + 1
      /\ out' = [ok |-> Visible(got) = Visible(Ref(h.path, 1, <<>>, <<>>, rec)), got |-> Visible(got), want |-> Visible(Ref(h.path, 1, <<>>, <<>>, rec)), h |-> i]
-     /\ UNCHANGED <<hs, arrays>> /\ hist' = Append(hist, [op |-> "log", h |-> i, name |-> "", attrs |-> rec])
+     /\ UNCHANGED <<hs, arrays>> /\ hist' = Append(hist, [op |-> "log", h |-> i, name |-> "", attrs |-> rec, want |-> Pretty(Visible(Ref(h.path, 1, <<>>, <<>>, rec)))])
 
 Next == \/ \E i \in 1..Len(hs) : \E n \in Names \cup {""} : WithGroup(i, n)
         \/ \E i \in 1..Len(hs) : \E a \in DeriveLists : WithAttrs(i, a)
@@ -133,7 +134,6 @@ Monotone == \A a, b \in -20..20 : a <= b => ZapLevel(a) <= ZapLevel(b)
 
 \* behaviours for replay: the operations, the predicted visible fields of the logged entry, and for every handler
 \* of the tree the prediction for a probe record with one emitting attribute (isolation is re-checked at the end)
-Pretty(fs) == [i \in 1..Len(fs) |-> IF fs[i].t = "ns" THEN "ns:" \o fs[i].v ELSE fs[i].t]
 EmitBeh == IF Emit /\ logs = MaxLogs
            THEN PrintT("@@BEH " \o ToJson([hist |-> hist, want |-> Pretty(out.want),
                                             probe |-> [i \in 1..Len(hs) |-> Pretty(Visible(Ref(hs[i].path, 1, <<>>, <<>>, <<"E">>)))]]))
